@@ -19,7 +19,7 @@ pub enum MK { // mark kinds
 pub struct Mark { pub off: usize, pub len: usize, pub kind: MK }
 #[derive(Debug, Clone)]
 pub struct Deletable { pub off: usize, pub len: usize, pub err: &'static str, pub tok: &'static str, pub at_mark: Option<usize> /* index into `anchors` giving expected position */ }
-pub struct G<'a> { pub u: Src<'a>, pub out: String, pub marks: Vec<Mark>, pub dels: Vec<Deletable>, pub anchors: Vec<usize>, pub depth: usize, pub feats: Vec<&'static str>, pub in_macro: usize, pub str_regions: Vec<(usize, usize)>, pub last_int: bool, pub max_depth: usize, pub open_parens: usize, pub open_calls: usize, pub open_text: usize, pub force_nonword: bool, pub lenient: bool, pub trunc_points: Vec<(usize, usize, usize, usize)> }
+pub struct G<'a> { pub u: Src<'a>, pub out: String, pub marks: Vec<Mark>, pub dels: Vec<Deletable>, pub anchors: Vec<usize>, pub depth: usize, pub feats: Vec<&'static str>, pub in_macro: usize, pub str_regions: Vec<(usize, usize)>, pub last_int: bool, pub max_depth: usize, pub open_parens: usize, pub open_calls: usize, pub open_text: usize, pub force_nonword: bool, pub lenient: bool, pub in_stmt_expr: bool, pub trunc_points: Vec<(usize, usize, usize, usize)> }
 
 const IDENTS: &[&str] = &["a", "b", "x1", "_v", "abc", "var_2", "tbl", "col", "é1", "mylib", "Z"];
 const MNAMES: &[&str] = &["m", "mymac", "util_1", "_m", "doit", "M2"];
@@ -32,7 +32,7 @@ const OPEN_SYM: &[&str] = &["=", "+", "-", "/", "<", ">", "<=", ">=", "^=", "~="
 const WORDS: &[&str] = &["a", "abc", "x1", "some", "text", "v_1", "é", "data", "q2"];
 
 impl<'a> G<'a> {
-    pub fn new(data: &'a [u8]) -> G<'a> { G { u: Src::new(data), out: String::new(), marks: vec![], dels: vec![], anchors: vec![], depth: 0, feats: vec![], in_macro: 0, str_regions: vec![], last_int: false, max_depth: 0, open_parens: 0, open_calls: 0, open_text: 0, force_nonword: false, lenient: false, trunc_points: vec![] } }
+    pub fn new(data: &'a [u8]) -> G<'a> { G { u: Src::new(data), out: String::new(), marks: vec![], dels: vec![], anchors: vec![], depth: 0, feats: vec![], in_macro: 0, str_regions: vec![], last_int: false, max_depth: 0, open_parens: 0, open_calls: 0, open_text: 0, force_nonword: false, lenient: false, in_stmt_expr: false, trunc_points: vec![] } }
     fn d_inc(&mut self) { self.depth += 1; if self.depth > self.max_depth { self.max_depth = self.depth; } }
     fn p(&mut self, s: &str) { self.out.push_str(s); }
     // a macro keyword in a random letter case (keywords are case-insensitive)
@@ -160,7 +160,13 @@ impl<'a> G<'a> {
 
     // ---------- macro calls
     // ctx: 0 = open code / text, 1 = inside string expr, 2 = inside macro arg/value
-    fn user_call(&mut self, _ctx: usize) {
+    fn user_call(&mut self, ctx: usize) {
+        let saved_stmt = self.in_stmt_expr;
+        self.in_stmt_expr = false;
+        self.user_call_inner(ctx);
+        self.in_stmt_expr = saved_stmt;
+    }
+    fn user_call_inner(&mut self, _ctx: usize) {
         self.feat("user-call");
         let name = self.pick(CALLNAMES); self.p("%"); self.p(name);
         if !name.is_ascii() { self.feat("non-ascii-macro-name"); }
@@ -246,6 +252,7 @@ impl<'a> G<'a> {
                 0 | 1 => { let w = self.pick(WORDS); self.p(w); self.tp(); }
                 2 => self.mvar(true),
                 3 | 4 => self.paren_group(),
+                5 if self.u.coin(1, 3) => { self.feat("semicolon-in-builtin-argument"); let w = self.pick(&["a", "", " "]); self.p(w); self.mark(";", MK::Masked); if self.u.coin(1, 2) { self.p("b"); } }
                 5 => { let q = self.u.coin(1, 2); self.p(if q { "'" } else { "\"" }); self.p("|"); self.mark(",", MK::Masked); self.mark(")", MK::Masked); self.p(if q { "' " } else { "\" " }); }
                 6 => { self.d_inc(); self.builtin_call(2); self.depth -= 1; }
                 _ => { self.d_inc(); self.user_call(2); self.depth -= 1; if !self.out.ends_with(')') { self.p(" w"); } }
@@ -260,14 +267,14 @@ impl<'a> G<'a> {
         match self.u.below(7) {
             0 | 1 => self.let_stmt(),
             2 => self.put_stmt(),
-            3 => { self.feat("if-in-arg"); self.pk("%if"); self.rws(); self.eval_expr(false, false); self.rgap_after_expr(); self.pk("%then"); self.rws(); if self.u.coin(1, 2) { self.let_stmt(); } else { self.do_in_value(); } }
+            3 => { self.feat("if-in-arg"); self.pk("%if"); self.rws(); self.stmt_eval_expr(); self.rgap_after_expr(); self.pk("%then"); self.rws(); if self.u.coin(1, 2) { self.let_stmt(); } else { self.do_in_value(); } }
             4 | 5 => self.do_in_value(),
             _ => { match self.u.below(4) { 0 => { self.pk("%return"); self.ows(); self.del_mark(";", "SEMI", "MissingExpectedSemiOrEOF", false); } 1 => { self.pk("%goto"); self.rws(); self.p("done"); self.ows(); self.mark(";", MK::Delim("SEMI", false)); } 2 => { self.pk("%local"); self.rws(); self.name_expr(); self.mark(";", MK::Delim("SEMI", false)); } _ => { self.p("%* c,=);"); } } }
         }
     }
     fn do_in_value(&mut self) {
         self.feat("do-in-arg"); self.pk("%do");
-        if self.u.coin(1, 3) { self.rws(); self.name_expr(); self.ows(); self.del_mark("=", "ASSIGN", "MissingExpectedAssign", false); self.ows(); self.eval_expr(false, false); self.rgap_after_expr(); self.pk("%to"); self.rws(); self.eval_expr(false, false); self.gap_after_expr(); self.mark(";", MK::Delim("SEMI", false)); }
+        if self.u.coin(1, 3) { self.rws(); self.name_expr(); self.ows(); self.del_mark("=", "ASSIGN", "MissingExpectedAssign", false); self.ows(); self.stmt_eval_expr(); self.rgap_after_expr(); self.pk("%to"); self.rws(); self.stmt_eval_expr(); self.gap_after_expr(); self.mark(";", MK::Delim("SEMI", false)); }
         else { self.ows(); self.mark(";", MK::Delim("SEMI", false)); }
         let n = self.u.below(3);
         for _ in 0..n { match self.u.below(4) { 0 => { self.p(" "); let w = self.pick(WORDS); self.p(w); self.p(" "); } 1 => { self.p(" "); self.mvar(true); self.p(" "); } 2 => self.let_stmt(), _ => self.put_stmt() } }
@@ -284,6 +291,12 @@ impl<'a> G<'a> {
         self.d_inc(); self.builtin_k(k); self.depth -= 1;
     }
     fn builtin_k(&mut self, k: usize) {
+        let saved_stmt = self.in_stmt_expr;
+        self.in_stmt_expr = false;
+        self.builtin_k_inner(k);
+        self.in_stmt_expr = saved_stmt;
+    }
+    fn builtin_k_inner(&mut self, k: usize) {
         self.feat("builtin");
         self.d_inc();
         match k {
@@ -370,6 +383,8 @@ impl<'a> G<'a> {
         self.depth -= 1;
         self.last_int = prev_int;
     }
+    // an expression that belongs to a statement head (%if condition, iterative %do bounds): a ';' would end it
+    fn stmt_eval_expr(&mut self) { let s = self.in_stmt_expr; self.in_stmt_expr = true; self.eval_expr(false, false); self.in_stmt_expr = s; }
     fn eval_op(&mut self) {
         let (s, t) = [("+", "PLUS"), ("-", "MINUS"), ("*", "STAR"), ("/", "FSLASH"), ("**", "STAR2"), ("<", "LT"), (">", "GT"), ("<=", "LE"), (">=", "GE"), ("=", "ASSIGN"), ("^=", "NE"), ("~=", "NE"), ("\u{ac}=", "NE"), ("ne", "KwNE"), ("EQ", "KwEQ"), ("lt", "KwLT"), ("Gt", "KwGT"), ("le", "KwLE"), ("ge", "KwGE"), ("and", "KwAND"), ("OR", "KwOR"), ("in", "KwIN"), ("#", "HASH"), ("&", "AMP"), ("|", "PIPE")][self.u.below(25)];
         let wordy = s.chars().all(|c| c.is_ascii_alphabetic());
@@ -384,6 +399,12 @@ impl<'a> G<'a> {
         let l0 = self.marks.len();
         let k = if self.depth > 6 { self.u.below(3) } else { self.u.below(10) };
         let k = if nonword { match k { 0 | 1 | 3 | 7 => 2, 5 | 6 if self.depth > 6 => 2, o => o } } else { k };
+        if !nonword && self.open_calls > 0 && !self.in_stmt_expr && self.u.coin(1, 14) {
+            // inside the parentheses of a call / built-in a ';' is text like any other character
+            self.feat("semicolon-in-expression-argument");
+            let w = self.pick(&["a", "", "x1"]); self.p(w); self.mark(";", MK::Masked); if self.u.coin(1, 2) { self.p("b"); }
+            return false;
+        }
         match k {
             0 | 1 => { let s = self.pick(&["0", "1", "42", "100", "0ffx", "007", "10", "00", "1Ax", "0FFX", "999999999"]); self.mark(s, MK::IntOperand); self.tp(); }
             2 => self.mvar(true),
@@ -438,7 +459,7 @@ impl<'a> G<'a> {
     }
     fn datalines_block(&mut self) { if self.in_macro > 0 { return self.open_stmt(); } self.feat("datalines"); if !self.out.trim_end_matches(|c: char| c.is_whitespace()).ends_with(';') && !self.out.is_empty() { self.p(";"); } match self.u.below(4) { 0 => self.p("datalines;\n1 2 3\nabc def\n;"), 1 => self.p("cards ;\n;"), 2 => self.p("DATALINES4;\na;b;;;c\n'x\n;;;;"), _ => self.p("lines;\n%notmacro &x /* not comment\n;") } }
     fn if_stmt(&mut self) {
-        self.feat("if"); self.pk("%if"); self.kgap(); self.eval_expr(false, false); self.rgap_after_expr(); self.pk("%then");
+        self.feat("if"); self.pk("%if"); self.kgap(); self.stmt_eval_expr(); self.rgap_after_expr(); self.pk("%then");
         match self.u.below(6) { 0 | 1 | 2 => { self.tgap(); self.do_block(); } 3 => { self.tgap(); self.let_stmt(); } 4 => { self.tgap(); self.put_stmt(); } _ => { self.rws(); self.simple_macro_stmt(); } }
         if self.u.coin(1, 3) { self.feat("else"); if self.u.coin(3, 4) { self.plain_ws(); } self.pk("%else"); match self.u.below(6) { 0 | 1 => { self.tgap(); self.do_block(); } 2 if self.depth < 4 => { self.feat("else-if"); self.tgap(); self.d_inc(); self.if_stmt(); self.depth -= 1; } 3 => { self.tgap(); self.let_stmt(); } _ => { self.rws(); self.simple_macro_stmt(); } } }
     }
@@ -447,7 +468,7 @@ impl<'a> G<'a> {
         self.feat("do"); self.pk("%do");
         match self.u.below(5) {
             0 | 1 => { self.ows(); self.mark(";", MK::Delim("SEMI", false)); }
-            2 => { self.feat("do-iter"); self.rws(); self.name_expr(); self.ows(); self.del_mark("=", "ASSIGN", "MissingExpectedAssign", false); self.ows(); self.eval_expr(false, false); self.rgap_after_expr(); self.pk("%to"); self.kgap(); self.eval_expr(false, false); if self.u.coin(1, 2) { self.rgap_after_expr(); self.pk("%by"); self.kgap(); self.eval_expr(false, false); self.gap_after_expr(); self.mark(";", MK::Delim("SEMI", false)); } else if self.lenient && self.u.coin(1, 3) { self.feat("do-iter-while"); self.rgap_after_expr(); let k = self.pick(&["%while", "%until", "%WHILE"]); self.p(k); self.ows(); self.del_mark("(", "LPAREN", "MissingExpectedLParen", false); self.ows(); self.eval_expr(false, false); self.ows_after_expr(); self.mark(")", MK::Delim("RPAREN", false)); self.ows(); self.del_mark(";", "SEMI", "MissingExpectedSemiOrEOF", false); } else { self.gap_after_expr(); self.mark(";", MK::Delim("SEMI", false)); } }
+            2 => { self.feat("do-iter"); self.rws(); self.name_expr(); self.ows(); self.del_mark("=", "ASSIGN", "MissingExpectedAssign", false); self.ows(); self.stmt_eval_expr(); self.rgap_after_expr(); self.pk("%to"); self.kgap(); self.stmt_eval_expr(); if self.u.coin(1, 2) { self.rgap_after_expr(); self.pk("%by"); self.kgap(); self.stmt_eval_expr(); self.gap_after_expr(); self.mark(";", MK::Delim("SEMI", false)); } else if self.lenient && self.u.coin(1, 3) { self.feat("do-iter-while"); self.rgap_after_expr(); let k = self.pick(&["%while", "%until", "%WHILE"]); self.p(k); self.ows(); self.del_mark("(", "LPAREN", "MissingExpectedLParen", false); self.ows(); self.eval_expr(false, false); self.ows_after_expr(); self.mark(")", MK::Delim("RPAREN", false)); self.ows(); self.del_mark(";", "SEMI", "MissingExpectedSemiOrEOF", false); } else { self.gap_after_expr(); self.mark(";", MK::Delim("SEMI", false)); } }
             3 => { self.feat("do-while"); self.tgap(); self.pk("%while"); self.ows(); self.del_mark("(", "LPAREN", "MissingExpectedLParen", false); self.ows(); self.eval_expr(false, false); self.ows_after_expr(); self.mark(")", MK::Delim("RPAREN", false)); self.ows(); self.del_mark(";", "SEMI", "MissingExpectedSemiOrEOF", false); }
             _ => { self.feat("do-until"); self.tgap(); self.pk("%until"); self.ows(); self.del_mark("(", "LPAREN", "MissingExpectedLParen", false); self.ows(); self.eval_expr(false, false); self.ows_after_expr(); self.mark(")", MK::Delim("RPAREN", false)); self.ows(); self.del_mark(";", "SEMI", "MissingExpectedSemiOrEOF", false); }
         }
@@ -493,7 +514,7 @@ impl<'a> G<'a> {
             0 => { self.pk("%return"); self.ows(); self.del_mark(";", "SEMI", "MissingExpectedSemiOrEOF", false); }
             1 => { self.pk("%symdel"); self.rws(); self.name_expr(); if self.u.coin(1, 2) { self.p(" "); self.name_expr(); } if self.u.coin(2, 3) { self.p(" / nowarn"); } self.ows(); self.p(";"); }
             2 => { self.pk("%sysexec"); self.rws(); self.p("ls -l /tmp"); self.p(";"); }
-            3 => { self.pk("%syscall"); self.rws(); let f = self.pick(&["ranuni", "streaminit", "symput", "set"]); self.p(f); self.ows(); self.del_mark("(", "LPAREN", "MissingExpectedLParen", false); self.ows(); let n = 1 + self.u.below(3); for i in 0..n { if i > 0 { self.mark(",", MK::Delim("COMMA", false)); self.ows(); } match self.u.below(6) { 0 | 1 => self.mvar(true), 2 => { let w = self.pick(&["seed", "x", "abc"]); self.p(w); } 3 => { let w = self.pick(&["1", "42"]); self.mark(w, MK::IntOperand); } 4 => { self.feat("comma-in-expression-parens"); let f = self.pick(&["max", "", "min"]); self.p(f); self.mark("(", MK::Op("LPAREN")); let w = self.pick(&["1", "&v", "a"]); self.p(w); self.mark(",", MK::Masked); let w = self.pick(&["2", " &v", "b"]); self.p(w); self.mark(")", MK::Op("RPAREN")); } _ => self.p("'a,b'") } } self.mark(")", MK::Delim("RPAREN", false)); self.ows(); self.del_mark(";", "SEMI", "MissingExpectedSemiOrEOF", false); }
+            3 => { self.pk("%syscall"); self.rws(); let f = self.pick(&["ranuni", "streaminit", "symput", "set"]); self.p(f); self.ows(); self.del_mark("(", "LPAREN", "MissingExpectedLParen", false); self.ows(); let n = 1 + self.u.below(3); for i in 0..n { if i > 0 { self.mark(",", MK::Delim("COMMA", false)); self.ows(); } match self.u.below(6) { 0 | 1 => self.mvar(true), 2 => { let w = self.pick(&["seed", "x", "abc"]); self.p(w); } 3 => { let w = self.pick(&["1", "42"]); self.mark(w, MK::IntOperand); } 4 => { self.feat("comma-in-expression-parens"); let f = self.pick(&["max", "", "min"]); self.p(f); self.mark("(", MK::Op("LPAREN")); let w = self.pick(&["1", "&v", "a"]); self.p(w); self.mark(",", MK::Masked); let w = self.pick(&["2", " &v", "b"]); self.p(w); self.mark(")", MK::Op("RPAREN")); } _ => { if self.u.coin(1, 2) { self.p("'a,b'"); } else { self.mark(";", MK::Masked); } } } } self.mark(")", MK::Delim("RPAREN", false)); self.ows(); self.del_mark(";", "SEMI", "MissingExpectedSemiOrEOF", false); }
             4 => { self.pk("%include"); self.rws(); self.p("'file.sas'"); self.ows(); self.p(";"); }
             5 => { match self.u.below(10) {
                     0 => { self.pk("%abort"); if self.u.coin(1, 2) { let o = self.pick(&[" cancel", " abend 4", " return"]); self.p(o); } else if self.u.coin(1, 2) { self.p(" "); self.opts_text(); } self.ows(); self.p(";"); }
